@@ -4,10 +4,15 @@ from vlib import deploysim as ds
 
 def run(ctx):
     quick = ctx.tier == 'quick'
-    ctx.rule = ('lib_apply: generated (roots layout x desired x disk state x per-root manifest state incl. hostile entries) through '
+    ctx.rule = ('cli_deploy: configuration/user-edit histories through every deploy entry point, every disappeared file judged against the records '
+                '(accepted manifest entries of the run\'s roots, else the latest snapshot restricted to those roots); moved_roots: the same agentpack home used '
+                'from another project checkout / with another codex_home / with a root switched off between deploys; '
+                'lib_apply: generated (roots layout x desired x disk state x per-root manifest state incl. hostile entries) through '
                 'load_managed_paths_from_manifests + plan + apply_plan (avh); non-trivial = plan non-empty; distinct = distinct (tag set, op set)')
     ctx.trusted = ['Coq 8.16.1 kernel + vm_compute', 'hand-written model coq/Model/Deploy.v', 'harness manifest classifier (serde rules re-implemented in Python)',
                    'avh harness crate', 'tools/gen_tables.py (manifest file names, schema version)']
     ctx.assumptions = ['SHA-256 injective on the file contents at hand (content ids)', 'target roots contain no symlinks; directories at file paths are outside the model']
     ctx.proof_phase(extra_targets=['Corr/Check_Deploy.vo'])
+    ds.run_cli_stream(ctx, 8 if quick else 150, 4 if quick else 8, props={'C02'})
+    ds.run_cli_stream(ctx, 10 if quick else 150, 4, props={'C02'}, stream='moved_roots', script=ds.script_moved_roots, setup=ds.setup_moved_roots)
     ds.run_lib_stream(ctx, 250 if quick else 4000, props={'C02'})
